@@ -222,7 +222,7 @@ def check_case(ctx, case):
     return None
 
 
-STYLES = [(".", ".", "'", "'"), (",", ".", "`", "'"), ("╭", "╮", "╰", "╯")]
+STYLES = [(".", ".", "'", "'"), (",", ".", "`", "'"), ("╭", "╮", "╰", "╯"), (".", ".", "\u2019", "\u2019"), (",", ".", "\u2019", "\u2019")]
 
 
 def run_shard(ctx, shard):
@@ -288,13 +288,13 @@ def execute(run):
         shards += [{'kind': 'arrows', 'name': 'arrows-%d' % i, 'lengths': list(range(1 + i, 41, 4))} for i in range(4)]
         shards += [{'kind': 'bullets', 'name': 'bullets-%d' % i, 'lengths': list(range(1 + i, 25, 4))} for i in range(4)]
         shards += [{'kind': 'combos', 'name': 'combos-%d' % i, 'lengths': list(range(1 + i, 13, 4))} for i in range(4)]
-        for st in range(3):
+        for st in range(len(STYLES)):
             shards += [{'kind': 'outlines', 'name': 'outlines-%d-%d' % (st, i), 'style': st, 'widths': [1, 2, 3, 4, 5, 8, 13, 21, 29, 30][i::2], 'heights': [1, 2, 3, 4, 7, 11, 15]} for i in range(2)]
     else:
         shards += [{'kind': 'arrows', 'name': 'arrows-%d' % i, 'lengths': list(range(1 + i, 41, 8))} for i in range(8)]
         shards += [{'kind': 'bullets', 'name': 'bullets-%d' % i, 'lengths': list(range(1 + i, 41, 8))} for i in range(8)]
         shards += [{'kind': 'combos', 'name': 'combos-%d' % i, 'lengths': list(range(1 + i, 41, 8))} for i in range(8)]
-        for st in range(3):
+        for st in range(len(STYLES)):
             shards += [{'kind': 'outlines', 'name': 'outlines-%d-%d' % (st, i), 'style': st, 'widths': list(range(1 + i, 31, 6)), 'heights': list(range(1, 16))} for i in range(6)]
         run.extra_cov['exhaustive_scopes'] = ['arrow glyphs x 8 directions x lengths 1..40 x 2 offsets', 'bullets x 10 placements x lengths 1..40 x 2 offsets',
                                               'rounded outlines 1..30 x 1..15 x 3 styles x 3 stub placements']
